@@ -135,7 +135,100 @@ def units(tier, seed):
   # cached_partial over two cached arguments that alias each other
   for g in CP2_GRAPHS:
     us.append(dict(kind='cp2', progs=[], graph=g))
+  # Variable metadata the function reads, changed by the caller between calls of one
+  # transformed function
+  for t in META_TRANSFORMS:
+    us.append(dict(kind='meta', progs=[], t=t))
   return us
+
+
+# (cached_partial is not in this family: it snapshots the graph definition of its cached
+# arguments by design, and Variable metadata is part of that definition)
+META_TRANSFORMS = ['jit', 'jit-static', 'remat', 'cond']
+
+
+def _run_meta(res, t):
+  """The function branches on a metadata flag of each Variable (`w.frozen`) and scales by a
+  numeric metadata field; the caller re-assigns that metadata between calls. Every history of
+  three calls over the 4 flag assignments x 2 scale values, on ONE transformed function (so
+  every hit / miss pattern of its trace cache), compared with the eager twin after each call."""
+  import itertools
+  import jax.numpy as jnp
+  import numpy as np
+  from flax import nnx
+
+  class Layer(nnx.Module):
+    def __init__(self, v):
+      self.w = nnx.Param(jnp.full((2,), float(v)), frozen=False, scale=1)
+
+  class Model(nnx.Module):
+    def __init__(self):
+      self.a = Layer(1)
+      self.b = Layer(2)
+      self.tied = self.a.w
+      self.steps = nnx.Variable(jnp.asarray(0))
+
+  def step(m, x):
+    for layer in (m.a, m.b):
+      if not layer.w.frozen:
+        layer.w.value = layer.w.value + x * layer.w.scale
+    m.steps.value = m.steps.value + 1
+    return m.a.w.value + m.b.w.value + m.tied.value
+
+  def make():
+    if t == 'jit':
+      return nnx.jit(step)
+    if t == 'jit-static':
+      f = nnx.jit(lambda m, k, x: step(m, x * k), static_argnums=(1,))
+      return lambda m, x: f(m, 1, x)
+    if t == 'remat':
+      return nnx.remat(step)
+    if t == 'cond':
+      return lambda m, x: nnx.cond(True, step, lambda mm, xx: xx * 0 + mm.a.w.value * 0, m, x)
+    return None
+
+  settings = [(fa, fb, sc) for fa in (False, True) for fb in (False, True) for sc in (1, 3)]
+  for hist in itertools.product(range(len(settings)), repeat=3):
+    if hist[0] > 1 and hist[0] != 7:
+      continue     # first call: both unfrozen (scale 1 / 3) or both frozen with scale 3
+    e, m = Model(), Model()
+    f = make()
+    if t == 'cached_partial':
+      g = nnx.cached_partial(nnx.jit(step), m)
+      f = lambda mm, x: g(x)
+    key = f'{t}|{hist}'
+    case = dict(transform=t, history=[list(map(int, settings[i])) for i in hist])
+    res['transitions'] += 3
+    for call, si in enumerate(hist):
+      fa, fb, sc = settings[si]
+      for mod in (e, m):
+        mod.a.w.frozen, mod.b.w.frozen = fa, fb
+        mod.a.w.scale = sc
+        mod.b.w.scale = sc
+      x = jnp.full((2,), float(call + 1))
+      res['evals'] += 2
+      re_ = step(e, x)
+      try:
+        rt = f(m, x)
+      except Exception as ex:  # noqa
+        core.violation(res, f'meta-raises|{key}|call{call}', f'{type(ex).__name__}: {ex}'[:300], case)
+        break
+      st_e = [np.asarray(v.value).tolist() for v in (e.a.w, e.b.w, e.steps)]
+      st_t = [np.asarray(v.value).tolist() for v in (m.a.w, m.b.w, m.steps)]
+      if st_e != st_t or not np.array_equal(np.asarray(re_), np.asarray(rt)):
+        core.violation(res, f'meta-stale|{key}|call{call}',
+                       'after the caller changed Variable metadata that the function reads, the '
+                       'transformed function did not do what the eager function does (stale trace)',
+                       dict(case, call=call), observed=dict(state=st_t, ret=np.asarray(rt).tolist()),
+                       expected=dict(state=st_e, ret=np.asarray(re_).tolist()))
+        break
+      if m.tied is not m.a.w or (m.a.w.frozen, m.b.w.frozen, m.a.w.scale) != (fa, fb, sc):
+        core.violation(res, f'meta-lost|{key}|call{call}',
+                       'aliasing or the caller\'s metadata did not survive the call', case)
+        break
+    core.outcome(res, f'meta:{t}:ok')
+    res['nontrivial'].append(core.h(key))
+  res['samples'].append(dict(kind='meta', t=t))
 
 
 CP2_GRAPHS = ['shared-var', 'shared-var-first', 'shared-node', 'same-object', 'disjoint']
@@ -829,6 +922,10 @@ def run_unit(unit):
     return res
   if unit['kind'] == 'cp2':
     _run_cp2(res, unit['graph'])
+    return res
+  if unit['kind'] == 'meta':
+    _run_meta(res, unit['t'])
+    _drop_caches()
     return res
   ctx = _Ctx(res)
   for p in unit['progs']:
